@@ -177,6 +177,22 @@ def check_c01(chk, rng):
                 cases.append(Case(p, pred, P.render(p, group=g, mode=mode, depth=depth), "%s/%d" % (mode, depth)))
         for o in P.admissible_orders(p, limit=2, rng=rng):
             cases.append(Case(p, pred, P.render(p, order=o), "order"))
+    # explicit rank dependencies: a node is declared to be evaluated after another one although no data flows between
+    # them - also a source without inputs, also when it was wired first
+    rprogs = []
+    for k in range(30 if chk.tier == "quick" else 400):
+        horizon = rng.choice([5, 6])
+        nodes = [P.node("src", script=P.gen_script(rng, horizon, maxlen=5)), P.node("pass", ins=[1]),
+                 P.node("timer", k=1, cnt=horizon), P.node("rec", ins=[3]), P.node(rng.choice(["add", "acc"]), ins=[1], k=1),
+                 P.node("count", ins=[1]), P.node("rec", ins=[5]), P.node("rec", ins=[6])]
+        p = P.program(60000 + k, nodes, start=1, end=horizon + 1)
+        p["rankdeps"] = [[3, 2], [5, 6]] if rng.random() < 0.7 else [[3, 6], [5, 2]]
+        rprogs.append(p)
+    rpreds, rres = dfcheck.predict(rprogs, tag="c01rank")
+    chk.add_tlc(rres, "rank-dependencies")
+    for p in rprogs:
+        orders = [[3, 1, 2, 4, 5, 6, 7, 8], [1, 5, 3, 2, 6, 4, 7, 8], list(range(1, 9))]
+        cases.append(Case(p, rpreds[p["id"]], P.render(p, order=rng.choice(orders)), "rankdep"))
     execute(cases)
     # static part: compiled edges point forward in rank
     for c in cases:
@@ -285,6 +301,17 @@ def check_cyclic_wiring(chk, rng):
         lines.append("bind 2 %d" % (3 + ln))
         lines.append("n %d rec in=%d" % (4 + ln, 3 + ln))
         lines += ["endgraph", "run"]
+        scns.append("\n".join(lines))
+    # a cycle made of data edges and ONE explicit rank dependency (on a source without inputs, on a compute node)
+    for k in range(4 if chk.tier == "quick" else 20):
+        ln = rng.randint(1, 3)
+        first = rng.choice(["n 1 timer p=1 cnt=3", "n 1 src script=1:1;2:2"])
+        lines = ["scn cycr%d" % k, "opt start=1 end=5", "graph root", first]
+        prev = 1
+        for j in range(ln):
+            lines.append("n %d %s in=%d" % (2 + j, rng.choice(["pass", "acc", "add"]), prev))
+            prev = 2 + j
+        lines += ["n %d rec in=%d" % (2 + ln, prev), "rankdep %d %d" % (rng.randint(1, max(1, prev - 1)) if rng.random() < 0.5 else 1, prev), "endgraph", "run"]
         scns.append("\n".join(lines))
     traces = hg.run_driver("engine", scns)
     for scn, tr in zip(scns, traces):
@@ -986,7 +1013,56 @@ def check_c09(chk, rng):
                 idx.append(len(cases))
                 cases.append(Case(p, rpreds[p["id"]], P.render(p, group=g, mode=mode, depth=depth), "ref-result-%s/%d" % (mode, depth)))
             groups.append(idx)
+    # nodes with an explicit EMPTY validity gate (tog: unchecked inputs) inside the sub-graph - see the known finding below
+    eg_first = len(cases)
+    egprogs = []
+    for i in range(40 if chk.tier == "quick" else 400):
+        p = P.random_program(rng, 75000 + i, max_nodes=6, horizon=6, kinds=("tog", "tog", "pass", "add", "count", "sum2"), allow_fb=False)
+        if any(nd["kind"] == "tog" for nd in p["nodes"]):
+            egprogs.append(p)
+    egpreds, egres = dfcheck.predict(egprogs, tag="c09gate")
+    chk.add_tlc(egres, "empty-gate")
+    eg_groups = []
+    for p in egprogs:
+        gs = [g for g in P.candidate_groups(p) if any(p["nodes"][j - 1]["kind"] == "tog" for j in g[0])]
+        rng.shuffle(gs)
+        for g in gs[:1]:
+            idx = []
+            for mode, depth in (("inline", 1), ("nested", 1), ("nested", 2)):
+                idx.append(len(cases))
+                cases.append(Case(p, egpreds[p["id"]], P.render(p, group=g, mode=mode, depth=depth), "empty-gate-%s/%d" % (mode, depth)))
+            eg_groups.append((idx, g))
     execute(cases)
+    # known finding (not repaired: documented design, nested_bindings.h schedule_sampled_input_consumers): a node with an empty
+    # validity gate is evaluated once more, in the cycle in which its nested graph starts, so the sub-graph's streams differ
+    # from the inlined ones from that cycle on.  Reported under its own case key only when the FIRST difference is exactly
+    # that extra evaluation; any other difference in these scenarios is an ordinary violation.
+    for idx, g in eg_groups:
+        base = cases[idx[0]]
+        if isinstance(base.events, dict):
+            continue
+        w0 = P.observed(base.events)[0]
+        for k in idx[1:]:
+            c = cases[k]
+            if isinstance(c.events, dict):
+                chk.violation("crash:" + c.what, "driver crashed", replay_text(c, "crash"))
+                continue
+            wk = P.observed(c.events)[0]
+            if wk == w0:
+                continue
+            diffs = sorted((t, i) for i in set(w0) | set(wk) for t in {x[0] for x in set(wk.get(i, [])) ^ set(w0.get(i, []))})
+            t0, i0 = diffs[0]
+            extra_at_start = (t0 == c.prog["start"] and i0 in g[0] and c.prog["nodes"][i0 - 1]["kind"] == "tog"
+                              and len(wk.get(i0, [])) == len(w0.get(i0, [])) + 1)
+            if extra_at_start:
+                chk.violation("F-empty-gate-node-sampled-at-child-start", "known", "")
+            else:
+                chk.violation("inline-vs-%s" % c.what, "the same sub-graph gives different streams inlined and nested (first difference: node %d at %d)"
+                              % (i0, t0), replay_text(c, "differs from inlined"))
+    cases_eg = cases[eg_first:]
+    for c in cases_eg:
+        chk.count({"scn": c.scn})
+    cases = cases[:eg_first]
     verdicts = validate(cases, chk, "c09")
     judge("C09", cases, verdicts, chk, ("C09.",), stream_is_mine=False)
     for idx in groups:
